@@ -35,3 +35,30 @@ CHECKS = {
               "hidden-column leak probes and the refusal catalogue, compared with the reference / the documented "
               "exception types on both backends.", "DESIGN.md section 6 C07"),
 }
+
+_T_ENUM = "complete enumeration of a finite space (degenerate property-based testing)"
+CHECKS.update({
+    "C08": _c("Generated verb histories on a SQLite-backed and a Polars-backed twin: every SQL verb call either succeeds or "
+              "raises SubqueryError; after SubqueryError the same verb behind alias() must be accepted; every accepted "
+              "pipeline must export what Polars and the reference export; restricted-grammar histories must never raise "
+              "it.", "DESIGN.md section 6 C08",
+              "property-based testing of verb histories (Hypothesis) with a differential and a reference oracle"),
+    "C09": _c("Generated verb histories followed by probes of references captured from arbitrary earlier tables, compared "
+              "with a reference scoping model over column identities (data equality, current name, ColumnNotFoundError "
+              "for columns that are not derivable any more) on both backends.", "DESIGN.md section 6 C09",
+              "property-based testing of histories (Hypothesis) against a reference scoping model"),
+    "C11": _c("After every step of generated histories columns(), iteration, len, in, dir and repr are compared with the "
+              "exported frame's columns on both backends, and the incrementally kept metadata with Cache.from_ast.",
+              "DESIGN.md section 6 C11", "property-based testing of histories (Hypothesis), static-vs-dynamic oracle"),
+    "C13": _c("Every operator is called with every argument-type tuple of a 50-type universe (arity 0-2 complete, arity 3 "
+              "complete in the thorough tier, arity 4 / varargs over representatives); totality, independence of "
+              "declaration order and hash seed, uniformity over sized types, const rules and declared signatures are "
+              "checked on the complete table. The space is finite, so enumeration is the strongest form of the technique.",
+              "DESIGN.md section 6 C13", _T_ENUM,
+              "Trusted base: the type universe listed in the evidence rule stands for the parametrised types."),
+    "C16": _c("Generated prefix pipelines followed by alias / alias(keep_col_refs=True) / collect / collect(keep_col_refs="
+              "False) / transfer_col_references / repeated alias, then further verbs, self-joins and summarize; the "
+              "re-rooted table must export exactly what its origin exports and old/new references must behave as the "
+              "reference scoping model predicts.", "DESIGN.md section 6 C16",
+              "property-based testing of histories (Hypothesis) against a reference scoping model"),
+})
